@@ -10,6 +10,7 @@ typedef struct {
     SuperLUStat_t stat;
     int_t info;
     int have_A, have_AC, have_LU, user_work, stat_on;
+    int fp_inexact;      /* FE_INEXACT was raised between entry to and return from ?gstrf/?gsitrf */
     superlu_options_t opt;
 } fact_run;
 /* my_permc: NULL or a permutation (used when opt->ColPerm == MY_PERMC). work/lwork as for ?gstrf. */
@@ -55,4 +56,28 @@ void gen_ilu_options(vf_rng *r, superlu_options_t *opt);
 void ilu_options_str(const superlu_options_t *opt, char *buf, size_t n);
 /* generous caller workspace for an n x n problem (bytes) */
 size_t generous_lwork(const vf_api *P, int n, int_t nnz);
+#endif
+#ifndef XDRV2_H
+#define XDRV2_H
+/* the operator the driver must apply to the factored matrix F (A, or A^T for row storage):
+   0 F, 1 F^T, 2 F^H, 3 conj(F) */
+int  effective_op(int rowmajor, trans_t t);
+/* F = the (possibly scaled) matrix as it stands in the caller's arrays now, in the orientation that was factored */
+void xdrv_factored_matrix(const xdrv *D, vf_mat *F);
+/* working-precision product a*f exactly as the library computes it (component-wise for complex) */
+ldc  mul_native(const vf_api *P, ldc a, ld f);
+ld   rmul_native(const vf_api *P, ld a, ld b);
+/* after a successful call: returns the worst componentwise residual ratio of the returned X in the scaled system
+   op(F) (X/t) = B_after against the factor-derived bound (cfac as in solve_residual_ratio) */
+ld   xdrv_scaled_residual(const xdrv *D, trans_t trans, ld cfac, int *nonfinite);
+ld   xdrv_skeel_sigma(const xdrv *D, trans_t trans);
+/* checks A_after == diag(R) A0 diag(C) per equed (A0vals: original values in storage order) and index arrays; returns 0 ok */
+int  xdrv_check_A_scaling(const xdrv *D, const vf_snap *idx0, const ldc *A0vals, char *why, size_t wl);
+/* checks B_after against B0 (n x nrhs) per the documented table; returns 0 ok */
+int  xdrv_check_B_scaling(const xdrv *D, trans_t trans, const ldc *B0, char *why, size_t wl);
+#endif
+#ifndef XDRV3_H
+#define XDRV3_H
+/* 1-norm condition number of a sparse square matrix via long double dense inverse; INFINITY when singular */
+ld dense_cond1(const vf_mat *F, ld *norm1_out, ld *inv_norm1_out, ld *norminf_out, ld *inv_norminf_out);
 #endif
